@@ -257,7 +257,7 @@ func (c *Case) replay(im, mo Outcome) map[string]any {
 		tpls[k] = v
 	}
 	r := map[string]any{"kind": "render", "templates": tpls, "main": c.Main, "ctx": c.Ctx, "request": c.request(),
-		"impl": map[string]any{"out": im.Out, "class": im.Class, "msg": im.Msg, "causes": im.Causes, "spies": fmt.Sprint(im.Spies), "panic": im.Panic},
+		"impl":  map[string]any{"out": im.Out, "class": im.Class, "msg": im.Msg, "causes": im.Causes, "spies": fmt.Sprint(im.Spies), "panic": im.Panic},
 		"model": map[string]any{"out": mo.Out, "class": mo.Class, "msg": mo.Msg, "causes": mo.Causes, "spies": fmt.Sprint(mo.Spies), "unsupported": mo.Unsupported}}
 	return r
 }
@@ -266,6 +266,7 @@ func (c *Case) replay(im, mo Outcome) map[string]any {
 // correspondence `what`. Returns (model outcome usable, continue?).
 func compareCase(e *Env, c *Case, key, broken string) (im Outcome, mo Outcome, ok bool, err error) {
 	im = runImpl(c)
+	checkRetained(e, im.Out)
 	if im.Class == "panic" || im.Class == "timeout" {
 		e.Rep.Violate(Violation{Key: "panic-or-hang", What: fmt.Sprintf("rendering %s: %s", im.Class, truncate(im.Panic, 200)),
 			Broken: "C05: no template source or context value makes the engine panic or hang", Replay: c.replay(im, Outcome{})})
@@ -292,6 +293,30 @@ func compareCase(e *Env, c *Case, key, broken string) (im Outcome, mo Outcome, o
 		return im, mo, false, nil
 	}
 	return im, mo, true, nil
+}
+
+// The results of the last renders are kept (the very strings the engine returned) next to private copies taken
+// at once: a result must not change after it was handed out, whatever is rendered later.
+type retainedOut struct{ got, copyOf string }
+
+var retainRing []retainedOut
+
+func checkRetained(e *Env, out string) {
+	for i, x := range retainRing {
+		if x.got != x.copyOf {
+			e.Rep.Violate(Violation{Key: "earlier-output-overwritten", What: fmt.Sprintf("a string returned by an earlier Render changed while later templates were rendered: was %q, is now %q", truncate(x.copyOf, 120), truncate(x.got, 120)),
+				Broken: "theorem C01_history_independence / C04_chunks: the rendered bytes are a function of template and context (implementation-only oracle: returned strings are immutable)",
+				Replay: map[string]any{"kind": "retained", "was_hex": hx(x.copyOf), "now_hex": hx(x.got), "renders_since": len(retainRing) - i}})
+			retainRing = nil
+			break
+		}
+	}
+	if out != "" {
+		retainRing = append(retainRing, retainedOut{out, strings.Clone(out)})
+		if len(retainRing) > 48 {
+			retainRing = retainRing[1:]
+		}
+	}
 }
 
 func describeCase(c *Case) map[string]any {
